@@ -79,6 +79,10 @@ pub fn check_resolution(input: &[Lint], output: &[Lint]) -> Result<(), String> {
     Ok(())
 }
 
+pub fn test_spans_pub(spans: &Spans, ctx: &mut CaseCtx) -> Result<(), String> {
+    test_spans(spans, ctx)
+}
+
 fn test_spans(spans: &Spans, ctx: &mut CaseCtx) -> Result<(), String> {
     let input = mk_lints(spans);
     let mut out = input.clone();
